@@ -449,6 +449,12 @@ static long long do_op(op_t *o) {
         if (s->obs || s->handle) { ret = -1000; break; }      /* generator error: slot reuse */
         const char *nm = s->name;
         if ((s->flags & M_MOD_NAME_AUTOFREE) && !(s->flags & M_MOD_NAME_DUP)) { char *c = tagged_alloc(40, TAG_NAME_BASE + SELF(a[0])); strcpy(c, s->name); nm = c; s->name_given = c; }
+        else if (o->na > 1 && (s->flags & M_MOD_NAME_DUP)) {
+            /* "reg <slot> <via>": register under the name string of the module that currently holds this name (looked up
+             * through module <via>), the way a program re-registering "the same name" does with m_mod_name(old) */
+            m_mod_t *via = H(a[1]); m_mod_t *old = via ? m_mod_lookup(via, s->name) : NULL;
+            if (old && m_mod_name(old)) nm = m_mod_name(old);
+        }
         if (s->flags & M_MOD_USERDATA_AUTOFREE) s->ud = tagged_alloc(sizeof(mud_t), TAG_MUD_BASE + SELF(a[0])); else s->ud = &s->ud_static;
         s->ud->magic = 0x4d55; s->ud->slot = SELF(a[0]);
         m_mod_hook_t hk = { (s->hooks & 2) ? cb_start : NULL, (s->hooks & 1) ? cb_eval : NULL, h0, (s->hooks & 4) ? cb_stop : NULL };
